@@ -3,7 +3,10 @@
 An MList is a length term plus one z3 array per scalar component of its elements (elements are
 ints, bools, strings or tuples of these).  append / insert(0, .) / pop / del xs[0] / extend /
 xs[i] = v are functional updates of the arrays; at loop heads the list is havocked in place
-(fresh arrays, fresh length) so that aliases keep seeing the same object."""
+(fresh arrays, fresh length) so that aliases keep seeing the same object.
+
+Element k lives at array index `base + k`: insert(0, .) and del xs[0] / popleft move `base` instead of
+shifting the arrays, so that all updates are plain stores (no lambda terms in the obligations)."""
 try:
     import z3
 except ImportError:
@@ -53,12 +56,13 @@ def _leaf(v, path):
 
 
 class MList(SList):
-    __slots__ = ('shape', 'arrs')
+    __slots__ = ('shape', 'arrs', 'base')
 
     def __init__(self, interp, uid, shape, length=None, fresh=True):
         SList.__init__(self, length if length is not None else z3.IntVal(0), None, uid)
         self.shape = shape
         self.arrs = {}
+        self.base = z3.IntVal(0)
         self.immutable = False
         self.elem = self._elem
         if shape is not None:
@@ -76,8 +80,9 @@ class MList(SList):
         def load(shape, path):
             if shape[0] == 'tuple':
                 return tuple(load(s, path + (i,)) for i, s in enumerate(shape[1]))
-            return wrap(z3.Select(self.arrs[path], idx))
+            return wrap(z3.Select(self.arrs[path], at))
 
+        at = z3.simplify(self.base + idx)
         return load(self.shape, ())
 
     def _ensure_shape(self, interp, v):
@@ -94,6 +99,7 @@ class MList(SList):
         n = interp.st.fresh_int('%s.len@%s' % (self.uid, tag))
         interp.st.assume(n >= 0)
         self.length = n
+        self.base = z3.IntVal(0)
         if self.shape is not None:
             self.arrs = {}
             self._fresh_arrays(interp, '%s@%s' % (self.uid, tag))
@@ -103,8 +109,9 @@ class MList(SList):
             v = interp.resolve(v)
         self._ensure_shape(interp, v)
         self.cache = {}
+        at = z3.simplify(self.base + self.length)
         for path, kind in _paths(self.shape):
-            self.arrs[path] = z3.Store(self.arrs[path], self.length, to_z3(_leaf(v, path)))
+            self.arrs[path] = z3.Store(self.arrs[path], at, to_z3(_leaf(v, path)))
         self.length = z3.simplify(self.length + 1)
 
     def insert(self, interp, pos, v):
@@ -112,10 +119,9 @@ class MList(SList):
             raise Unsupported('insert at a position other than 0 in a symbolic list')
         self._ensure_shape(interp, v)
         self.cache = {}
-        k = z3.Int('k!shift')
+        self.base = z3.simplify(self.base - 1)
         for path, kind in _paths(self.shape):
-            a = self.arrs[path]
-            self.arrs[path] = z3.Lambda([k], z3.If(k == 0, to_z3(_leaf(v, path)), z3.Select(a, k - 1)))
+            self.arrs[path] = z3.Store(self.arrs[path], self.base, to_z3(_leaf(v, path)))
         self.length = z3.simplify(self.length + 1)
 
     def pop(self, interp, pos=-1):
@@ -135,11 +141,8 @@ class MList(SList):
         raise Unsupported('pop at a symbolic position')
 
     def delete_first(self, interp):
-        k = z3.Int('k!shift')
         self.cache = {}
-        for path, kind in _paths(self.shape):
-            a = self.arrs[path]
-            self.arrs[path] = z3.Lambda([k], z3.Select(a, k + 1))
+        self.base = z3.simplify(self.base + 1)
         self.length = z3.simplify(self.length - 1)
 
     def extend(self, interp, other):
@@ -158,10 +161,11 @@ class MList(SList):
                     raise Unsupported('extend of an empty list of unknown shape')
             k = z3.Int('k!ext')
             n = self.length
-            sample = models.slist_elem(interp, other, k - n)
+            end = z3.simplify(self.base + n)
+            sample = models.slist_elem(interp, other, k - end)
             for path, kind in _paths(self.shape):
                 a = self.arrs[path]
-                self.arrs[path] = z3.Lambda([k], z3.If(k < n, z3.Select(a, k), to_z3(_leaf(sample, path))))
+                self.arrs[path] = z3.Lambda([k], z3.If(k < end, z3.Select(a, k), to_z3(_leaf(sample, path))))
             self.length = z3.simplify(n + other.length)
             self.cache = {}
             return
@@ -179,13 +183,15 @@ class MList(SList):
                 raise PyRaise(IndexError('list assignment index out of range'))
         self._ensure_shape(interp, v)
         self.cache = {}
+        at = z3.simplify(self.base + t)
         for path, kind in _paths(self.shape):
-            self.arrs[path] = z3.Store(self.arrs[path], t, to_z3(_leaf(v, path)))
+            self.arrs[path] = z3.Store(self.arrs[path], at, to_z3(_leaf(v, path)))
 
     def copy(self, interp):
         c = MList(interp, interp.st.fresh_name(self.uid + '.copy'), None, self.length)
         c.shape = self.shape
         c.arrs = dict(self.arrs)
+        c.base = self.base
         return c
 
 
